@@ -773,7 +773,7 @@ func classify(c Case) (bool, []string) {
 						add("text:unclosed-{{-then-special")
 					}
 					if inside(n, "pre") {
-						add("pre:unclosed-{{-then-special")
+						add("pre:unclosed-{{")
 					}
 				}
 				if strings.Contains(plain, "}}") {
